@@ -200,3 +200,40 @@ def run_derived(P, rep, rule="R-TABLE.derive"):
     rep.analysed[rule + ".derived_structs"] = n
     if n == 0:
         rep.anchor_missing(rule, "derived ObjectView impls")
+
+
+# ---------------------------------------------------------------------------------------
+# R-SIBLINGS.str: every string-like scalar answers type_name / query_state through the &str implementation
+
+STRINGLIKE = ["alloc::string::String", "kstring::string::KStringBase", "kstring::string_cow::KStringCowBase", "kstring::string_ref::KStringRef"]
+
+
+def run_string_siblings(P, rep, rule="R-SIBLINGS.str"):
+    """String, KString, KStringCow and KStringRef are sibling implementations of one interface over the same content: their
+    query_state (truthy/default/empty/blank) must be the &str implementation's answer, not a private copy of it."""
+    impls = {}
+    for im in P.impls_of(VV):
+        if im["crate"] == "liquid_core" and not im["expn"]:
+            impls[P.impl_self_str(im).split("<")[0]] = im
+    for st in STRINGLIKE:
+        im = impls.get(st)
+        short = st.rsplit("::", 1)[-1]
+        if im is None:
+            rep.anchor_missing(rule, "impl ValueView for " + st)
+            continue
+        provided = {it["name"]: it["id"] for it in im["items"] if it["is_fn"]}
+        for m in ("query_state",):
+            fn = P.fns.get(provided.get(m, ""))
+            site = "%s::%s" % (short, m)
+            if fn is None:
+                rep.viol(rule, site, "%s:%s" % (im["file"], im["line"]), "%s is not implemented (trait default would answer)" % m)
+                continue
+            fn = P.view(fn)
+            fw = [t for bi, t in P.calls(fn) if t.get("f") and t["f"].get("trait") == VV and t["f"]["id"].rsplit("::", 1)[1] == m
+                  and "self_ty" in t["f"] and P.tstr(fn.crate, t["f"]["self_ty"]) == "&str"]
+            branches = [b for b in fn.blocks if b["t"]["k"] == "switch"]
+            if len(fw) != 1 or branches:
+                rep.viol(rule, site, P.where(fn), "%s for %s does not simply forward to <&str as ValueView>::%s: sibling string types can answer differently "
+                         "(e.g. blank for whitespace-only content)" % (m, short, m))
+            else:
+                rep.ok(rule, site, P.where(fn), "forwards to <&str as ValueView>::%s" % m)
